@@ -37,7 +37,7 @@ Lemma span_of_msg_items mpl msg : 32 <= mpl -> mpl mod 32 = 0 ->
 Proof. intros Hm Hm32. unfold required_spec. destruct (zlen msg <=? mpl) eqn:E.
   - destruct (unfrag_frame_spec dummy_log 0 0 0 mpl msg ltac:(lia)) as (Hok & Hsp & Hit).
     rewrite <- Hit, (span_of_items _ _ Hok), Hsp. unfold unfrag_required_spec. rewrite HDR_eq, FA_eq. reflexivity.
-  - destruct (frag_frames_spec dummy_log (fun _ _ => 0) 0 mpl msg 0 ltac:(lia) Hm32 ltac:(lia)) as (fs & _ & Hok & Hsp & Hit).
+  - destruct (frag_frames_spec dummy_log (fun _ _ _ => 0) 0 mpl msg 0 ltac:(lia) Hm32 ltac:(lia)) as (fs & _ & Hok & Hsp & Hit).
     rewrite <- Hit, (span_of_items _ _ Hok), Hsp. reflexivity. Qed.
 
 Lemma required_pos len mpl : 32 <= mpl -> 0 <= len -> 0 < required_spec len mpl.
@@ -72,7 +72,7 @@ Hypothesis Hmtu : 64 <= mtu.
 Hypothesis Htlen : 0 < tlen.
 Variables (F : flavour) (pinv : Z -> Z -> fl_state F -> Prop).
 Hypothesis FK : flavour_ok F pinv.
-Variables (m : mode) (rv : Z -> Z -> Z).
+Variables (m : mode) (rv : Z -> Z -> list Z -> Z).
 
 Let gO := mkC01Geom tlen mtu init n0 off0 ses.
 Let gg := g tlen mtu n0 off0.
